@@ -14,7 +14,11 @@ pub static CLOCK_NS: AtomicU64 = AtomicU64::new(0);
 
 pub const CLOCK_BASE_NS: u64 = 1_700_000_000_000_000_000;
 
-static LAST_PANIC: Mutex<Option<String>> = Mutex::new(None);
+// per thread: with several threads panicking at once (a panic poisons a lock, others panic on the
+// poisoned lock) a single global slot would hand a thread somebody else's message
+thread_local! {
+    static LAST_PANIC: std::cell::RefCell<Option<String>> = const { std::cell::RefCell::new(None) };
+}
 
 pub fn install_version_queue() {
     verif::set_version_installed_hook(Some(Arc::new(|path, versions| {
@@ -59,10 +63,10 @@ pub fn install_panic_capture() {
             "<non-string panic>".to_string()
         };
         let loc = info.location().map(|l| format!("{}:{}", l.file(), l.line())).unwrap_or_default();
-        *LAST_PANIC.lock().unwrap_or_else(|e| e.into_inner()) = Some(format!("{msg} @ {loc}"));
+        LAST_PANIC.with(|p| *p.borrow_mut() = Some(format!("{msg} @ {loc}")));
     }));
 }
 
 pub fn take_panic() -> Option<String> {
-    LAST_PANIC.lock().unwrap_or_else(|e| e.into_inner()).take()
+    LAST_PANIC.with(|p| p.borrow_mut().take())
 }
